@@ -274,6 +274,14 @@ func scribble(c *CfgCore) {
 	for i := range c.TU.L {
 		c.TU.L[i] = poisonS
 	}
+	if c.HeldP != nil {
+		if c.HeldP.M != nil {
+			c.HeldP.M[poisonS] = poisonI
+		}
+		for i := range c.HeldP.L {
+			c.HeldP.L[i] = poisonS
+		}
+	}
 	for _, m := range c.MA {
 		if m != nil {
 			m[poisonS] = poisonI
